@@ -233,7 +233,7 @@ impl Prop for C07 {
         "each evaluation = one (contig, start, end) query on an archive produced by a simulated create of the C01 space (small segments: split, re-oriented, multi-pack, k-mer-only tail segments): ALL pairs 0..=len+2 for contigs up to 60 bases, otherwise every segment junction +-(k+1) crossed with a spread of ends plus {0,1,len-1,len,len+1} and random pairs; oracle: equals the slice of a fresh handle's full extraction, and get_contig_length equals its length; a third of the archives is read under short reads/EINTR. distinct_nontrivial = distinct (archive, contig) digests."
     }
     fn runs(&self, tier: Tier) -> u64 {
-        match tier { Tier::Quick => 320, Tier::Thorough => 20_000 }
+        match tier { Tier::Quick => 320, Tier::Thorough => 10_000 }
     }
     fn run_chunk(&self, ctx: &Ctx, indices: &[u64]) -> Vec<RunReport> {
         indices.iter().map(|&i| explore(source_spec(seed::run_seed(ctx.base_seed ^ 0xC07, i)), None, i, i < 2)).collect()
